@@ -307,10 +307,16 @@ func (m *SessionManager) Count() int {
 
 // CleanupExpired removes sessions that have been inactive
 func (m *SessionManager) CleanupExpired(timeout time.Duration) int {
+	return len(m.RemoveExpired(timeout))
+}
+
+// RemoveExpired removes sessions that have been inactive and returns them, so
+// that the caller can release what they held (client address)
+func (m *SessionManager) RemoveExpired(timeout time.Duration) []*Session {
 	m.mu.Lock()
 	defer m.mu.Unlock()
 
-	var removed int
+	var removed []*Session
 	now := time.Now()
 
 	for id, session := range m.sessions {
@@ -321,7 +327,7 @@ func (m *SessionManager) CleanupExpired(timeout time.Duration) int {
 		if inactive {
 			m.unindexMAC(session.ClientMAC, id)
 			delete(m.sessions, id)
-			removed++
+			removed = append(removed, session)
 		}
 	}
 
